@@ -12,11 +12,12 @@ extern void _dispatch_verif_heap_update(void *h, void *dt, uint64_t target, uint
 extern uint32_t _dispatch_verif_heap_count(void *h);
 extern void *_dispatch_verif_heap_slot(void *h, uint32_t idx);
 extern uint32_t _dispatch_verif_timer_entry(void *dt, int hid);
+extern int _dispatch_verif_heap_take_needs_program(void *h);
 static uint64_t s; static uint64_t rnd(void){ s += 0x9e3779b97f4a7c15ull; uint64_t z=s; z=(z^(z>>30))*0xbf58476d1ce4e5b9ull; z=(z^(z>>27))*0x94d049bb133111ebull; return z^(z>>31); }
 struct tm { void *dt; uint64_t k[2]; };
 static struct tm live[4096]; static int nlive;
 static uint64_t key_of(void *dt, int hid){ for(int i=0;i<nlive;i++) if(live[i].dt==dt) return live[i].k[hid]; return 0; }
-static void dump(void *h){ uint32_t c=_dispatch_verif_heap_count(h); printf(" | %u", c);
+static void dump(void *h){ uint32_t c=_dispatch_verif_heap_count(h); printf(" | %d %u", _dispatch_verif_heap_take_needs_program(h), c);
   for(uint32_t i=0;i<c;i++) printf(" %llu",(unsigned long long)key_of(_dispatch_verif_heap_slot(h,i), (int)(i&1))); puts(""); }
 int main(int argc,char**argv){ s = argc>1? strtoull(argv[1],0,10):1; int N = argc>2? atoi(argv[2]):3000; int cap = argc>3? atoi(argv[3]):60;
   void *h=_dispatch_verif_heap_new();
